@@ -460,7 +460,9 @@ func (cr *clRun) hung() {
 	}
 	for _, o := range cr.ios {
 		if !o.done {
-			cr.viol(cr.s.Prop, "io-hung", "I/O %d (%s off=%d len=%d) issued at %v did not complete within 900 simulated seconds", o.idx, o.kind, o.off, o.n, o.issuedAt)
+			wr, rd, holder, waiters := cr.c.ctrl.RWMutex.State()
+			cr.viol(cr.s.Prop, "io-hung", "I/O %d (%s off=%d len=%d) issued at %v did not complete within 900 simulated seconds (now %v; controller lock writer=%v readers=%d holder=%q waiters=%d; pending events %d; acquired=%v)",
+				o.idx, o.kind, o.off, o.n, o.issuedAt, cr.w.Now(), wr, rd, holder, waiters, cr.w.PendingEvents(), o.acquired)
 			return
 		}
 	}
@@ -768,7 +770,7 @@ func (cr *clRun) onQuiescent() {
 	if promoted != "" {
 		cr.pendingPromo = promoted
 	}
-	if cr.idleIO() {
+	if cr.idleIO() && cr.curAdmin == nil { // (a management operation in flight changes the model only when it returns)
 		if cr.pendingPromo != "" {
 			cr.deepChecks("at promotion of "+cr.pendingPromo, cr.pendingPromo)
 			cr.pendingPromo = ""
